@@ -603,6 +603,9 @@ func c10BandOrder(c *core.Ctx) {
 	if !c.Mine("band-order", int64(c.Batch)) {
 		return
 	}
+	if !c.Replay {
+		bandFingerprints(c, "band-tables")
+	}
 	cfgs := allBandCfgs()
 	rot := (c.Batch * 7) % len(cfgs)
 	order := append(append([]bandCfg{}, cfgs[rot:]...), cfgs[:rot]...)
